@@ -178,3 +178,19 @@ prop('C14',
              'closest targets': 'a stored key, a foreign key, the local key; k in 1..2 and 8/30'},
      outside=['all 2^256 targets / all bucket indices (only the concrete targets above are walked)', 'KademliaPeer::push_addresses address bounds'],
      )
+
+prop('C18',
+     explanation='Differential symbolic execution: litep2p PeerId parsing/derivation against the reference libp2p-identity implementation '
+                 '(interpreted from that crate\'s own MIR dump) on multihash records with solver-chosen code and digest bytes and every boundary '
+                 'length, on peer-id byte strings with symbolic header bytes, and on key blobs of every boundary length; round trips through bytes, '
+                 'Vec<u8> and multiaddress components, whose infallible conversion is a verification condition.',
+     units=[
+         dict(harness='c18_multihash', covers=['c18.accepted', 'c18.rejected'], min_paths=30, split=0, conform={'quick': 200, 'thorough': 3000}, nvals=8),
+         dict(harness='c18_key_blob', covers=['c18.inline', 'c18.hashed'], min_paths=8, split=0, conform={'quick': 50, 'thorough': 200}, nvals=4),
+         dict(harness='c18_from_bytes', covers=['c18.bytes.accepted', 'c18.bytes.rejected'], min_paths=300, split=3, conform={'quick': 200, 'thorough': 3000}, nvals=8),
+     ],
+     bounds={'multihash code': '64-bit symbolic', 'digest length': '0,1,31,32,41,42,43,63,64', 'digest bytes': 'first and last symbolic, rest zero',
+             'key blob length': '0,1,36,41,42,43,44,100', 'byte strings': '1-2 symbolic code bytes + symbolic size byte + digest + optional trailing byte'},
+     outside=['base58 text form (bs58 library)', 'serde visitor plumbing', 'ed25519 key validity', 'the SHA-256 function itself (exact for concrete inputs)'],
+     assumptions=['multihash::Multihash::{wrap,from_bytes,to_bytes} are modelled (header varints decoded by the real unsigned-varint code)'],
+     )
